@@ -153,6 +153,29 @@ where
     | [] => [(k, v)]
     | (k', v') :: r => if k' == k then (k, v) :: r else (k', v') :: assocSetP k v r
 
+/-- the new source of `rotate_transition` is not a state that may own transitions -/
+def rotSrcErr (c : Chart) (newSource : Option Name) : Bool :=
+  match newSource with
+  | some s => match c.stateFor s with
+    | none => true
+    | some st => !st.kind.ownsTransitions
+  | none => false
+
+/-- the new target of `rotate_transition` does not exist -/
+def rotTgtErr (c : Chart) (newTarget : Option (Option Name)) : Bool :=
+  match newTarget with
+  | some (some tg) => !c.hasState tg
+  | _ => false
+
+/-- the rotated transition -/
+def rotApply (newSource : Option Name) (newTarget : Option (Option Name)) (t : Trans) : Trans :=
+  let t1 := match newSource with
+    | some s => { t with source := s }
+    | none => t
+  match newTarget with
+  | some tg => { t1 with target := tg }
+  | none => t1
+
 /-- `rotate_transition(transitions[i], new_source=…, new_target=…)`.
     `newSource = none` / `newTarget = none`: argument not given (`''`);
     `newTarget = some none`: make the transition internal. `i = none`: a transition that is not in
@@ -163,27 +186,11 @@ def rotateTransition (c : Chart) (i : Option Nat) (newSource : Option Name)
   match i.bind (fun i => c.transitions[i]?) with
   | none => (.error .statechart, c)
   | some _ =>
-    let i := i.getD 0
     -- checks first (after the D10 repair)
-    let srcErr := match newSource with
-      | some s => match c.stateFor s with
-        | none => true
-        | some st => !st.kind.ownsTransitions
-      | none => false
-    if srcErr then (.error .statechart, c) else
-    let tgtErr := match newTarget with
-      | some (some tg) => !c.hasState tg
-      | _ => false
-    if tgtErr then (.error .statechart, c) else
+    if rotSrcErr c newSource then (.error .statechart, c) else
+    if rotTgtErr c newTarget then (.error .statechart, c) else
     (.ok (), { c with transitions := c.transitions.mapIdx (fun j t =>
-      if j == i then
-        let t1 := match newSource with
-          | some s => { t with source := s }
-          | none => t
-        match newTarget with
-        | some tg => { t1 with target := tg }
-        | none => t1
-      else t) })
+      if j == i.getD 0 then rotApply newSource newTarget t else t) })
 
 /-- `validate()`: `true` = passes, `false` = raises `StatechartError` -/
 def validate (c : Chart) : Bool :=
